@@ -64,6 +64,7 @@ def _is_neg_replay(path):
 
 def run(c):
     c.proofs("theories/Properties/C11.v", clean=(c.tier == "thorough"))
+    c.translate(['TieEdf'])  # T1: formulas / constants regenerated from the source, tie theorems re-checked
     # the checker definitions are not in the cone of the property file: (re)build them after the cone
     import vlib
     ok, log = vlib.coq_make(["theories/Edf/Cases.vo", "theories/Edf/NegCases.vo"])
